@@ -58,6 +58,13 @@ def make_case(seed, index, tier):
                         'early': rng.choice([None, None, None, 0, 0.375, 1, max(period, 0) + 1]),
                         # after that many ticks the iterator is handed to a child activity
                         'handover': rng.choice([None, None, None, 1, 2])})
+    if rng.random() < 0.04:
+        # a ticker that only starts when time has reached infinity (every delay has passed):
+        # it still ticks - at inf, letting the others run - and never spuriously overruns
+        ticker = rng.choice(tickers)
+        ticker.update(offset='inf', deadline=None, early=None, scoped=False)
+        ticker['period'] = rng.choice([0, 1, 5, 'inf'])
+        ticker['durations'] = [rng.choice([0, 0, 1, 'inf']) for _ in ticker['durations'][:4]]
     if rng.random() < 0.08:
         # an exact integer clock beyond float precision (e.g. nanosecond time stamps): integer
         # periods, body durations, offsets and deadlines only - the grid stays exact
@@ -74,15 +81,19 @@ def make_case(seed, index, tier):
             'tickers': tickers}
 
 
+def num(value):
+    return float('inf') if value == 'inf' else value
+
+
 def expected(spec, begin):
     """list of (tick time) and the terminal event, ignoring any deadline"""
-    period = spec['period']
+    period = num(spec['period'])
     if period < 0:
         return [], 'ValueError'
     ticks = []
     now = begin
     last = begin
-    for duration in spec['durations']:
+    for duration in map(num, spec['durations']):
         if spec['how'] == 'interval':
             due = last + period
             if due < now:
@@ -116,7 +127,7 @@ def run_case(case):
                 while limit is None or state['count'] < limit:
                     now = await box[0].__anext__()
                     log[name].append((time.now, now, sess.n, state['body_end_n']))
-                    duration = spec['durations'][state['count']]
+                    duration = num(spec['durations'][state['count']])
                     if duration:
                         await (time + duration)
                     state['count'] += 1
@@ -133,14 +144,14 @@ def run_case(case):
 
         async def body():
             if spec['offset']:
-                await (time + spec['offset'])
+                await (time + num(spec['offset']))
             maker = usim.interval if spec['how'] == 'interval' else usim.delay
             # kept in a box that is emptied on the way out, never in a local of its own
             # (see known finding D16 of C03)
             box = []
             try:
                 try:
-                    box.append(maker(spec['period']).__aiter__())
+                    box.append(maker(num(spec['period'])).__aiter__())
                 except ValueError:
                     ends[name] = ('ValueError', time.now)
                     return
